@@ -1,3 +1,4 @@
+import SdcModel.PeriodicStore
 import SdcModel.Basic.Io
 import SdcModel.Reports
 /-! line-protocol driver for the provider MDIB model (used by drv_c02, drv_c03, drv_c04) -/
@@ -145,6 +146,17 @@ def step (st : St) (line : String) : St × String :=
     | some c, some r => finish st c r
     | _, _ => (st, "bad-op")
   | ["dump"] => (st, dump st.t)
+  | ["pstore", evs] =>
+    -- periodic store model: events `p<n>` (a commit stores n) and `c` (the collector's next block), from the empty store
+    let parse (w : String) : Option PeriodicStore.Ev :=
+      if w == "c" then some .col
+      else if w.startsWith "p" then (w.drop 1).toNat?.map .put else none
+    match (evs.splitOn ",").mapM parse with
+    | some es =>
+      let r := PeriodicStore.run PeriodicStore.good {} es
+      let sh (l : List Nat) := " ".intercalate (l.map toString)
+      (st, sh r.out ++ "|" ++ sh r.tmp ++ "|" ++ sh r.store)
+    | none => (st, "bad-op")
   | ["reports", seq, inst] => match seq.toNat?, optNat inst with
     | some q, some i => (st, " ## ".intercalate ((mkReports st.t ⟨st.t.ver, q, i⟩ st.last).map showRep))
     | _, _ => (st, "bad-op")
